@@ -80,6 +80,7 @@ Limits of the approach (stated)
 from __future__ import annotations
 
 import ctypes
+import hashlib
 import importlib
 import itertools
 import json
@@ -438,10 +439,10 @@ def pacing_ok(tree, ops):
 class Scratch:
     """A real scratch directory: <base>/w is the watched root, <base>/o the outside area."""
 
+    PARENT = None     # set by scratch_parent(): every Scratch of this run (also of crashed workers) lives below it
+
     def __init__(self):
-        # $TMPDIR if set; else tmpfs (/dev/shm: metadata operations are ~5x faster than on the ext4 /tmp); else /tmp
-        base = os.environ.get("TMPDIR") or ("/dev/shm" if os.access("/dev/shm", os.W_OK | os.X_OK) else "/tmp")
-        self.base = os.path.realpath(tempfile.mkdtemp(prefix="verif-c20-", dir=base))
+        self.base = os.path.realpath(tempfile.mkdtemp(prefix="s-", dir=Scratch.PARENT or scratch_parent()))
         self.root = os.path.join(self.base, "w")
         self.out = os.path.join(self.base, "o")
         self.fds = []
@@ -497,6 +498,24 @@ class Scratch:
     def destroy(self):
         self.close_fds()
         shutil.rmtree(self.base, ignore_errors=True)
+
+
+def scratch_parent():
+    """One directory per run: $TMPDIR if set; else tmpfs (/dev/shm: metadata operations are ~5x faster than on the
+    ext4 /tmp of this machine); else /tmp.  Removed at exit, whatever happened to the workers."""
+    import atexit
+
+    if Scratch.PARENT is None:
+        base = os.environ.get("TMPDIR") or ("/dev/shm" if os.access("/dev/shm", os.W_OK | os.X_OK) else "/tmp")
+        Scratch.PARENT = os.path.realpath(tempfile.mkdtemp(prefix=f"verif-c20-{os.getpid()}-", dir=base))
+        pid = os.getpid()
+
+        def _rm(path=Scratch.PARENT):
+            if os.getpid() == pid:
+                shutil.rmtree(path, ignore_errors=True)
+
+        atexit.register(_rm)
+    return Scratch.PARENT
 
 
 def post_order(fp):
@@ -805,6 +824,7 @@ def run_scenario(L, S, sc, probe=False):
     detail = []
     flags = set()
     streams = []
+    sticky = set()
     ops = [tuple(o) for o in sc["ops"]]
     pos = 0
     for gi, gn in enumerate(sc["groups"]):
@@ -835,6 +855,11 @@ def run_scenario(L, S, sc, probe=False):
                 if at < len(stream) and batch[-1][2] & kItemRenamed and stream[at][2] & kItemRenamed \
                         and stream[at][1] == batch[-1][1] and stream[at][0] != batch[-1][0]:
                     flags.add("splitpair")
+                if sc.get("verbose"):
+                    # sticky ItemCreated: FSEvents keeps reporting the flag on later events of an item it has announced
+                    # as created (the "spurious is_created" the emitter's _fs_view exists for)
+                    merged = [(p_, i_, fl | (kItemCreated if (i_, p_) in sticky else 0)) for p_, i_, fl in merged]
+                    sticky.update((i_, p_) for p_, i_, fl in merged if fl & kItemCreated)
                 batch = merged
             elif at < len(stream) and batch[-1][0] == A_OLD:
                 flags.add("splitpair")
@@ -945,39 +970,80 @@ def expand_job(L, S, job):
 
 
 def _worker(jobs):
+    """Runs jobs; returns (records, uniq): records = [(scenario, flags, key)], uniq = {key: canonical trace}.  The full
+    lines / native detail are not shipped back (memory): the parent re-executes the few scenarios it reports."""
     L = load_layers()
     S = Scratch()
-    out = []
+    recs, uniq = [], {}
+
+    def add(sc, lines, flags):
+        can = canonical(lines)
+        key = hashlib.sha1(json.dumps(can, sort_keys=True).encode()).hexdigest()
+        if key not in uniq:
+            uniq[key] = can
+        recs.append((sc, flags, key))
+
     try:
         for job in jobs:
             if job[0] == "random":
-                out.extend(random_job(L, S, job[1]))
+                for sc, lines, _detail, flags in random_job(L, S, job[1]):
+                    add(sc, lines, flags)
+            elif job[0] == "decode":
+                tr = [run_decoder_case(L, cs) for cs in job[2]]
+                add({"decoder": job[1], "n": len(tr)}, tr, [])
             else:
-                out.extend(expand_job(L, S, job))
+                for sc, lines, _detail, flags in expand_job(L, S, job):
+                    add(sc, lines, flags)
     finally:
         S.destroy()
-    return out
+    return recs, uniq
 
 
-def random_job(L, S, seed):
-    """One random longer history (names a..d, depth 3, 8-24 operations), random delivery groups respecting the pacing
-    condition, random cuts and coalescings; both layers, recursive and not."""
-    rng = random.Random(seed)
-    names = NAMES[:4]
-    tree = {}
-    ops = []
-    groups = []
-    n = rng.randint(8, 24)
-    t = dict(tree)
+def run_pool(chunks, jobs):
+    """_worker over chunks in forked processes.  A worker that dies (e.g. the decoder read far beyond the buffer and
+    the interpreter segfaulted) must not hang the run: the chunks are then re-run one process each and the crashing
+    ones are returned as such.  Returns (list of (recs, uniq) | None per chunk)."""
+    from concurrent.futures import ProcessPoolExecutor, ThreadPoolExecutor
+    from concurrent.futures.process import BrokenProcessPool
+
+    ctx = mp.get_context("fork")
+    results = [None] * len(chunks)
+    try:
+        with ProcessPoolExecutor(max_workers=jobs, mp_context=ctx) as ex:
+            futs = [ex.submit(_worker, ch) for ch in chunks]
+            for i, f in enumerate(futs):
+                results[i] = f.result()
+        return results
+    except BrokenProcessPool:
+        pass
+
+    def one(i):
+        try:
+            with ProcessPoolExecutor(max_workers=1, mp_context=ctx) as ex1:
+                return ex1.submit(_worker, chunks[i]).result()
+        except BrokenProcessPool:
+            return None
+
+    todo = [i for i, r in enumerate(results) if r is None]
+    with ThreadPoolExecutor(max_workers=jobs) as tp:
+        for i, r in zip(todo, tp.map(one, todo)):
+            results[i] = r
+    return results
+
+
+def _random_history(rng, names, depth, n, accept):
+    """Random history in delivery groups; `accept(ops, groups)` filters candidate extensions."""
+    ops, groups = [], []
+    t = {}
     while len(ops) < n:
         gn = rng.choice([1, 1, 2, 3, 4])
         grp = []
         tt = t
         for _ in range(gn):
-            cand = enabled_ops(tt, names=names, depth=3)
+            cand = enabled_ops(tt, names=names, depth=depth)
             rng.shuffle(cand)
-            for op in cand:
-                if pacing_ok(t, grp + [op]):
+            for op in cand[:12]:
+                if pacing_ok(t, grp + [op]) and accept(ops + grp + [op], groups + [len(grp) + 1]):
                     grp.append(op)
                     tt = apply_model(tt, op)
                     break
@@ -986,29 +1052,62 @@ def random_job(L, S, seed):
         ops += grp
         groups.append(len(grp))
         t = tt
+    return ops, groups
+
+
+def random_job(L, S, seed):
+    """Random longer histories (names a..d, depth 3, 8-24 operations) in random delivery groups that respect the
+    pacing condition, random cuts and coalescings, both layers, recursive and not.  Two families per seed:
+    `any` (one unrestricted history for the four layer/recursive combinations) and `clean` (per combination a history
+    and cuts that avoid the features of the recorded findings, so that the scenario is expected to pass)."""
+    rng = random.Random(seed)
+    names = NAMES[:4]
+    n = rng.randint(8, 24)
+    ops_any, groups_any = _random_history(rng, names, 3, n, lambda o, g: True)
     out = []
     for layer in ("win", "fse"):
         for rec in (True, False):
-            base = {"layer": layer, "rec": rec, "tree": tree, "ops": [list(o) for o in ops], "groups": groups,
-                    "verbose": rng.random() < 0.5, "seed": seed}
-            streams = run_scenario(L, S, base, probe=True)
-            cuts, coal = [], []
-            for stream in streams:
-                c = rng.choice(cut_family(len(stream))) if stream else ()
-                cuts.append(list(c))
-                if layer == "fse":
-                    at = 0
-                    cc = []
-                    for ln in c:
-                        cc.append(rng.randrange(len(fse_coalescings(stream[at: at + ln]))))
-                        at += ln
-                    coal.append(cc)
+            for fam in ("any", "clean"):
+                if fam == "any":
+                    ops, groups = ops_any, groups_any
                 else:
-                    coal.append(None)
-            sc = dict(base)
-            sc["cuts"], sc["coal"] = cuts, coal
-            lines, detail, flags = run_scenario(L, S, sc)
-            out.append((sc, lines, detail, flags))
+                    def accept(o, g, layer=layer, rec=rec):
+                        return not predict({"layer": layer, "rec": rec, "tree": {}, "ops": o, "groups": g}, ())
+                    ops, groups = _random_history(rng, names, 3, n, accept)
+                base = {"layer": layer, "rec": rec, "tree": {}, "ops": [list(o) for o in ops], "groups": groups,
+                        "verbose": rng.random() < 0.5, "seed": seed, "family": fam}
+                streams = run_scenario(L, S, base, probe=True)
+                cuts, coal = [], []
+                for stream in streams:
+                    fam_cuts = cut_family(len(stream)) if stream else [()]
+                    if fam == "clean":
+                        def splits(cc, stream=stream):
+                            at = 0
+                            for ln in cc[:-1]:
+                                at += ln
+                                prev, nxt = stream[at - 1], stream[at]
+                                if layer == "win" and prev[0] == A_OLD:
+                                    return True
+                                if layer == "fse" and prev[2] & kItemRenamed and nxt[2] & kItemRenamed and \
+                                        prev[1] == nxt[1] and prev[0] != nxt[0]:
+                                    return True
+                            return False
+                        fam_cuts = [cc for cc in fam_cuts if not splits(cc)]
+                    cc = rng.choice(fam_cuts)
+                    cuts.append(list(cc))
+                    if layer == "fse":
+                        at = 0
+                        ci = []
+                        for ln in cc:
+                            ci.append(rng.randrange(len(fse_coalescings(stream[at: at + ln]))))
+                            at += ln
+                        coal.append(ci)
+                    else:
+                        coal.append(None)
+                sc = dict(base)
+                sc["cuts"], sc["coal"] = cuts, coal
+                lines, detail, flags = run_scenario(L, S, sc)
+                out.append((sc, lines, detail, flags))
     return out
 
 
@@ -1146,28 +1245,359 @@ def canonical(lines):
     return out
 
 
-def validate(c, results, heap="3g"):
-    """results: list of (scenario, lines, detail, flags).  Returns per result the sorted list of failing clause codes
-    (None-entry 'REJECTED' if the trace spec could not consume the trace)."""
-    index, uniq, keys = [], [], {}
-    for _sc, lines, _d, _f in results:
-        can = canonical(lines)
-        k = json.dumps(can, sort_keys=True)
-        if k not in keys:
-            keys[k] = len(uniq)
-            uniq.append(can)
-        index.append(keys[k])
+def validate(c, recs, uniq, heap="3g"):
+    """recs: [(scenario, flags, key)], uniq: {key: canonical trace}.  TLC validates every distinct canonical trace once.
+    Returns per record the list of failing clause codes ('REJECTED@n' if the trace spec could not consume the trace)."""
+    keys = sorted(uniq)
+    pos = {k: i for i, k in enumerate(keys)}
     jobs = c.jobs if c is not None else 16
-    chunk = max(200, len(uniq) // (jobs * 2) + 1)
-    verdicts, stats = tlc.validate_traces("XlatTrace", "XlatTrace.cfg", uniq, chunk=chunk, parallel=jobs, heap=heap,
-                                          dfs_queue=False)
+    chunk = max(200, len(keys) // (jobs * 2) + 1)
+    verdicts, stats = tlc.validate_traces("XlatTrace", "XlatTrace.cfg", [uniq[k] for k in keys], chunk=chunk,
+                                          parallel=jobs, heap=heap, dfs_queue=False)
     out = []
-    for i in index:
-        v = verdicts[i]
+    for _sc, _flags, key in recs:
+        v = verdicts[pos[key]]
         if v["accepted"]:
             out.append([])
         elif v["viol"]:
             out.append(list(v["viol"]))
         else:
             out.append(["REJECTED@%d" % v["furthest"]])
-    return out, stats, len(uniq)
+    return out, stats, len(keys)
+
+
+_WIN_POOLS = ["abcd", "é雪ñ☃", "\U0001F600ü\U0001F40Dz", "xЖ\U00010348中"]      # BMP and surrogate pairs
+
+
+def _win_name(pool, nl):
+    """A well-formed UTF-16 name of exactly nl code units taken from the pool (a surrogate pair is never cut)."""
+    out = b""
+    for ch in pool * 2:
+        u = ch.encode("utf-16-le")
+        if len(out) + len(u) <= 2 * nl:
+            out += u
+    return out + b"q\0" * (nl - len(out) // 2)
+_INO_POOLS = [b"abcd", b"\xc3\xa9\xe2\x98", b"\xff\xfe\x80\x81", b"a\xc3b\xa9"]
+_WDS = [1, -1, 2 ** 31 - 1, 7]
+_MASKS = [0x100, 0x40000100, 0x4000, 0x80000000 | 0x2]
+_COOKIES = [0, 0xFFFFFFFF, 12345, 1]
+_ACTIONS = [1, 2, 3, 4, 5, 0xFFFE]
+
+
+def decoder_cases(max_recs=3, max_name=4, max_pad=3):
+    """Every record sequence within the Codec bounds (the universe Codec.tla's Init enumerates), for both formats."""
+    shapes = [(nl, pd) for nl in range(max_name + 1) for pd in range(max_pad + 1)]
+    cases = []
+    n = 0
+    for cnt in range(max_recs + 1):
+        for combo in itertools.product(shapes, repeat=cnt):
+            n += 1
+            win, ino = [], []
+            for k, (nl, _pd) in enumerate(combo):
+                pool = _WIN_POOLS[(n + k) % len(_WIN_POOLS)]
+                units = _win_name(pool, nl)                          # nl UTF-16 code units
+                win.append((_ACTIONS[(n + k) % len(_ACTIONS)], units))
+                ino.append((_WDS[(n + k) % 4], _MASKS[(n + 2 * k) % 4], _COOKIES[(n + 3 * k) % 4],
+                            _INO_POOLS[(n + k) % len(_INO_POOLS)][:nl]))
+            cases.append(("win", win, [pd for _nl, pd in combo]))
+            cases.append(("ino", ino, [pd for _nl, pd in combo]))
+    return cases
+
+
+def _units(b):
+    return [int.from_bytes(b[i: i + 2], "little") for i in range(0, len(b), 2)]
+
+
+def run_decoder_case(L, case):
+    """Encode, run the REAL decoder, return the dec trace line (ints that do not fit TLC's 32 bits travel as strings)."""
+    fmt, recs, pads = case
+    try:
+        if fmt == "win":
+            F = L.winapi.FileNotifyInformation
+            dw = ctypes.sizeof(L.winapi.DWORD)
+            hdr = F.FileName.offset
+            buf = b""
+            for i, ((action, units), pad) in enumerate(zip(recs, pads)):
+                size = hdr + len(units) + pad
+                nxt = 0 if i == len(recs) - 1 else size
+                buf += nxt.to_bytes(dw, sys.byteorder) + action.to_bytes(dw, sys.byteorder) + \
+                    len(units).to_bytes(dw, sys.byteorder) + units + b"\0" * pad
+            got = L.winapi._parse_event_buffer(buf, len(buf))
+            dec = [[str(a), _units(s.encode("utf-16-le", "surrogatepass"))] for a, s in got]
+            enc = [[str(a), _units(u)] for a, u in recs]
+        else:
+            buf = inotify_encode(recs, pads)
+            got = list(L.inotify_c.Inotify._parse_event_buffer(buf))
+            dec = [[str(a), str(b), str(c_), list(nm)] for a, b, c_, nm in got]
+            enc = [[str(a), str(b), str(c_), list(nm)] for a, b, c_, nm in recs]
+    except Exception as e:  # noqa: BLE001
+        enc = [["case"]]
+        dec = [[f"EXC {type(e).__name__}"]]
+    return {"e": "dec", "fmt": fmt, "enc": enc, "dec": dec}
+
+
+def bom_cases():
+    """Windows names that start with U+FEFF / contain it later (a legal NTFS name character)."""
+    out = []
+    for name in ("﻿ab", "﻿", "a﻿b"):
+        out.append(("win", [(1, name.encode("utf-16-le")), (3, "zz".encode("utf-16-le"))], [0, 2]))
+    return out
+
+
+# --------------------------------------------------------------------------------------------------------------------
+# the check
+# --------------------------------------------------------------------------------------------------------------------
+
+DESIGN_RUNS = {
+    # name: (module, cfg quick, cfg thorough, actions that must be covered)
+    "WinXlat": ("WinXlat", "WinXlat_quick.cfg", "WinXlat_thorough.cfg",
+                ["T_RenamedOld", "T_RenamedNewDir", "T_RenamedNewFile", "T_Modified", "T_AddedDir", "T_AddedFile",
+                 "T_Removed", "T_RemovedSelf"]),
+    "FSEventsXlat": ("FSEventsXlat", "FSEventsXlat_quick.cfg", "FSEventsXlat_thorough.cfg",
+                     ["T_CreatedRemoved", "T_Plain", "T_RenamedPair", "T_RenamedIn", "T_RenamedOut", "T_RootChanged"]),
+    "Codec": ("Codec", "Codec_quick.cfg", "Codec_thorough.cfg", ["D_WinRecord", "D_WinEnd", "D_InoRecord", "D_InoEnd"]),
+}
+NEG_RUNS = {  # finding -> (module, cfg, invariant TLC must find violated)
+    "W1": ("WinXlat", "WinXlat_neg_W1.cfg", "Xlat_ReplicaMatches"),
+    "W2": ("WinXlat", "WinXlat_neg_W2.cfg", "Xlat_ReplicaMatches"),
+    "F1": ("FSEventsXlat", "FSEventsXlat_neg_F1.cfg", "Xlat_ReplicaMatches"),
+    "F2": ("FSEventsXlat", "FSEventsXlat_neg_F2.cfg", "FSEvents_NonRecursiveNothingBelowChildren"),
+    "F3": ("FSEventsXlat", "FSEventsXlat_neg_F3.cfg", "Xlat_RenameIsOneMovedEvent"),
+    "F4": ("FSEventsXlat", "FSEventsXlat_neg_F4.cfg", "Xlat_ReplicaMatches"),
+}
+FINDINGS["W3"] = ("win-filename-decoded-as-utf-16-with-bom", {"D"},
+                  "winapi._parse_event_buffer decodes FileName with codec 'utf-16': a name that starts with U+FEFF loses "
+                  "its first character (taken for a byte-order mark); 'utf-16-le' is the layout of the structure")
+
+
+def scenario_jobs(thorough):
+    jobs = []
+    maxops = 3 if thorough else 2
+    for ti, ops in histories(maxops):
+        for g in groupings(START_TREES[ti], ops):
+            for layer in ("win", "fse"):
+                for rec in (True, False):
+                    jobs.append((layer, rec, ti, ops, g, False))
+                    if len(ops) <= (2 if thorough else 1) or (not thorough and all(x == 1 for x in g)):
+                        jobs.append((layer, rec, ti, ops, g, True))       # verbose native streams
+    return jobs, maxops
+
+
+def describe(sc, detail):
+    ops = " ; ".join(" ".join("/".join(x) if isinstance(x, (list, tuple)) else str(x) for x in o) for o in sc["ops"])
+    nat = " | ".join(str(d["native"]) + " -> " + str(d["queued"]) for d in detail)
+    return (f"{sc['layer']} {'recursive' if sc['rec'] else 'non-recursive'} start={sc['tree']} ops=[{ops}] "
+            f"groups={sc['groups']} cuts={sc.get('cuts')} coal={sc.get('coal')}: {nat}")[:1500]
+
+
+def run(c: checklib.Check):
+    from concurrent.futures import ThreadPoolExecutor
+
+    L = load_layers()
+    c.note(f"modules under test imported from {loader.REPO_SRC} through shims (fake ctypes.WinDLL / _watchdog_fsevents); "
+           f"shims removed: WinDLL={hasattr(ctypes, 'WinDLL')} fsevents={'_watchdog_fsevents' in sys.modules}; "
+           f"sizeof(DWORD)={ctypes.sizeof(L.winapi.DWORD)}")
+
+    # ---- 1. design specs (in the background while the scenarios run)
+    tier = 2 if c.thorough else 1
+    w = max(2, c.jobs // 4)
+
+    def tlc_job(item):
+        name, (mod, cfg) = item
+        return name, cfg, tlc.run_tlc(mod, cfg, workers=w, coverage=not name.startswith("neg:"), timeout=1500, heap="8g")
+
+    items = [(n, (v[0], v[tier])) for n, v in DESIGN_RUNS.items()] + \
+            [("neg:" + f, (v[0], v[1])) for f, v in NEG_RUNS.items()]
+    pool_t = ThreadPoolExecutor(max_workers=4)
+    design_future = pool_t.map(tlc_job, items)
+
+    # ---- 2. scenarios on the real emitters, 3. decoders (in worker processes: a decoder that runs off the buffer can
+    #         take the interpreter down)
+    scratch_parent()
+    jobs, maxops = scenario_jobs(c.thorough)
+    n_hist_jobs = len(jobs)
+    nrand = 1500 if c.thorough else 150
+    jobs += [("random", c.seed * 1000003 + i) for i in range(nrand)]
+    cases = decoder_cases()
+    jobs += [("decode", "codec-universe", cases[i: i + 600]) for i in range(0, len(cases), 600)]
+    jobs.append(("decode", "bom", bom_cases()))
+    nchunks = c.jobs * 16
+    chunks = [jobs[i::nchunks] for i in range(nchunks)]
+    parts = run_pool(chunks, c.jobs)
+    recs, uniq = [], {}
+    crashed = []
+    for ch, part in zip(chunks, parts):
+        if part is None:
+            crashed.append(ch)
+            continue
+        recs += part[0]
+        uniq.update(part[1])
+    n_enum = sum(1 for r in recs if "ops" in r[0] and "seed" not in r[0])
+    n_rand = sum(1 for r in recs if "seed" in r[0])
+    c.note(f"scenarios: {n_hist_jobs} (history, delivery grouping, layer, recursive, verbose) jobs over histories of "
+           f"<= {maxops} operations -> {n_enum} cut/coalescing variants; {nrand} random seeds -> {n_rand} long scenarios; "
+           f"every one executed on a real scratch tree and fed to the real queue_events")
+    c.note(f"decoders: {len(cases)} encoded buffers (all record sequences <= 3 records, names 0..4, paddings 0..3, two "
+           f"formats) + {len(bom_cases())} BOM names through the real _parse_event_buffer functions")
+    for ch in crashed:
+        kinds = sorted({j[0] if j[0] in ("random", "decode") else j[0] + "-scenario" for j in ch})
+        c.violation("P_C20_NoException",
+                    f"a worker process DIED (no Python exception: the interpreter itself went down, e.g. a decoder reading "
+                    f"far beyond the buffer) while running {len(ch)} jobs of kinds {kinds}; first job: {str(ch[0])[:300]}",
+                    {"jobs": [str(j)[:300] for j in ch[:5]]}, signature="P_C20_NoException:crash:unexplained")
+
+    # ---- 4. TLC validates every distinct canonical trace against XlatTrace.tla
+    viols, stats, nuniq = validate(c, recs, uniq)
+    c.add_trace_stats("XlatTrace", len(recs), stats)
+    c.cov["states"] += stats["distinct"]
+    c.cov["transitions"] += stats["generated"]
+    c.cov["distinct_canonical_traces"] = nuniq
+
+    by_sig = {}
+    n_fail = 0
+    for (sc, flags, key), vs in zip(recs, viols):
+        if not vs:
+            continue
+        n_fail += 1
+        for code in vs:
+            if code.startswith("REJECTED"):
+                sig, clause = "P_C20_Explainable:unexplained", "P_C20_Explainable"
+            elif "decoder" in sc:
+                clause = CLAUSES[code]
+                sig = f"{clause}:W3:{FINDINGS['W3'][0]}" if sc["decoder"] == "bom" else f"{clause}:decoder:unexplained"
+            else:
+                clause = CLAUSES[code]
+                sig = signature(sc, flags, code)
+            size = (len(sc.get("ops", [])), len(uniq[key]), sum(len(x) for x in sc.get("cuts") or []))
+            cur = by_sig.get(sig)
+            if cur is None:
+                by_sig[sig] = {"n": 1, "size": size, "clause": clause, "sc": sc, "key": key, "flags": flags}
+            else:
+                cur["n"] += 1
+                if size < cur["size"]:
+                    cur.update(size=size, sc=sc, key=key, flags=flags)
+    c.cov["failing_traces_by_signature"] = {k: v["n"] for k, v in sorted(by_sig.items())}
+    c.note(f"trace validation: {len(recs)} traces ({nuniq} distinct canonical), {n_fail} with a failing clause; "
+           f"signatures: " + json.dumps({k: v["n"] for k, v in sorted(by_sig.items())}))
+
+    # unexplained signatures first (checklib prints the first five distinct ones); the reported scenario of each
+    # signature is re-executed here to get its native batches and queued events for the replay file
+    S = Scratch()
+    try:
+        for sig in sorted(by_sig, key=lambda x: (0 if "unexplained" in x else 1, x)):
+            v = by_sig[sig]
+            if "decoder" in v["sc"]:
+                bad = [ln for ln in uniq[v["key"]] if ln["enc"] != ln["dec"]][:3]
+                what = f"decoded records differ from the encoded ones in {v['n']} trace(s), e.g. {bad}"
+                if v["sc"]["decoder"] == "bom":
+                    what = FINDINGS["W3"][2] + "; " + what
+                replay = {"decoder_lines": bad}
+            else:
+                lines, detail, _fl = run_scenario(L, S, v["sc"])
+                fid = sig.split(":")[1]
+                why = FINDINGS[fid][2] if fid in FINDINGS else "no recorded finding explains this scenario"
+                what = f"{v['n']} scenario(s); {why}; smallest: {describe(v['sc'], detail)}"
+                replay = {"c20_scenario": v["sc"], "flags": v["flags"], "native_and_queued": detail, "trace": lines,
+                          "trace_spec": ["XlatTrace", "XlatTrace.cfg"], "clause": v["clause"]}
+            c.violation(v["clause"], what, replay, signature=sig)
+    finally:
+        S.destroy()
+
+    # ---- 5. design-spec results
+    observed = {s.split(":")[1] for s in by_sig if s.split(":")[1] in FINDINGS}
+    for name, cfg, r in design_future:
+        c.add_tlc(f"{name}:{cfg}", r)
+        if name.startswith("neg:"):
+            fid = name[4:]
+            want = NEG_RUNS[fid][2]
+            if want not in r.violated:
+                c.machinery_failure(f"{cfg}: the model does not reproduce finding {fid} (expected {want} violated, got "
+                                    f"{r.violated} {r.errors[:2]})")
+            c.note(f"TLC {cfg}: {want} violated as expected (finding {fid} "
+                   f"{'also observed on the real emitter' if fid in observed else 'NOT observed on the real emitter: model drift'}), "
+                   f"{r.distinct} states, {r.wall:.1f}s")
+            if fid not in observed:
+                c.cov["drift_traces"] += 1
+        else:
+            for act in DESIGN_RUNS[name][3]:
+                if r.coverage.get(act, 0) == 0:
+                    c.machinery_failure(f"vacuity: action {act} never taken in {cfg}")
+            if not r.ok:
+                c.machinery_failure(f"design spec {cfg} violated: {r.violated} {r.errors[:2]}")
+            if name == "WinXlat":
+                # spec -> code: the model's history universe is the one enumerated on the real emitters
+                uni = tlc.find_tagged(r.output, "UNIVERSE")
+                mine = {(len(t), len(enabled_ops(t)), sum(len(enabled_ops(apply_model(t, o))) for o in enabled_ops(t)))
+                        for t in START_TREES}
+                if not uni or set(uni[0][1]) != mine:
+                    c.machinery_failure(f"history universe of the model {uni[:1]} differs from the enumerated one {mine}")
+                c.note(f"history universe (entries, enabled operations, 2-operation histories per start tree) agrees "
+                       f"between XlatCommon.tla and the Python enumeration: {sorted(mine)}")
+            if name == "Codec":
+                n_shapes = sum(20 ** k for k in range((3 if c.thorough else 2) + 1))
+                if r.coverage.get("Init", 0) not in (0, 2 * n_shapes):
+                    c.machinery_failure(f"Codec initial states {r.coverage.get('Init')} != 2 x {n_shapes} record shapes")
+            c.note(f"TLC {cfg}: {r.generated} states generated, {r.distinct} distinct, depth {r.depth}, {r.wall:.1f}s")
+    pool_t.shutdown()
+
+    c.cov["evaluations"] += n_enum + n_rand + len(cases) + len(bom_cases())
+    c.cov["distinct_nontrivial"] = nuniq
+    c.cov["exhaustive"] = True
+    c.cov["rule"] = (f"every history of <= {maxops} operations (create file/dir, write, recursive delete, rename, move out, "
+                     "move in of a file / directory / directory tree, root removal last) over names {a,b}, depth 2, from 3 "
+                     "start trees x every delivery grouping that respects the C01 pacing x Windows/FSEvents x recursive/"
+                     f"non-recursive x every batch cut (streams <= {MAX_ALL_CUTS} events; longer: one batch, singletons, "
+                     "every single cut) x every coalescing of adjacent same-item events; verbose native variants for the "
+                     f"short histories; {nrand} seeded random histories of 8-24 operations over 4 names, depth 3 (clean and "
+                     "unrestricted); every record sequence of the Codec universe for both decoders; distinct = distinct "
+                     "canonical traces (adjacent feed lines merged)")
+    S = Scratch()
+    try:
+        for want in ("win", "fse"):
+            ex = next((r for r in recs if "ops" in r[0] and "seed" not in r[0] and len(r[0]["ops"]) == 2 and
+                       r[0]["layer"] == want and (want == "win" or "coalesced" in r[1])), None)
+            if ex:
+                _lines, detail, _fl = run_scenario(L, S, ex[0])
+                c.sample({"scenario": ex[0], "native_and_queued": detail})
+    finally:
+        S.destroy()
+    dk = next((r[2] for r in recs if r[0].get("decoder") == "codec-universe"), None)
+    if dk:
+        c.sample({"decoder": uniq[dk][len(uniq[dk]) // 2]})
+    c.assumptions += [
+        "native streams are produced by the documented-semantics simulator of checks/c20.py, not by Windows / macOS",
+        "LP64: FILE_NOTIFY_INFORMATION laid out with the module's own ctypes structure (DWORD = 8 bytes here); the cursor "
+        "logic is checked, the Windows ABI field width is not",
+        "FSEvents coalescing merges only ADJACENT events of one (inode, path); inode numbers are not reused inside a scenario",
+        "'/' as path separator; str watch paths; fake kernel32 / _watchdog_fsevents implement only what queue_events reaches",
+        "per-operation contract clauses are evaluated only for operations delivered one at a time (C03); back-to-back "
+        "groups respect the C01 directory pacing and are judged by P_C20_ReplicaMatches",
+    ]
+
+
+def replay_main(path):
+    """./check C20 --replay <file>: re-execute the recorded scenario on the real emitter and re-validate it."""
+    d = json.load(open(path))
+    rp = d.get("replay", {})
+    print(f"replay of {d.get('property')} clause={d.get('clause')}: {d.get('what', '')[:600]}")
+    if "c20_scenario" not in rp:
+        print(json.dumps(rp, indent=1, default=str)[:4000])
+        return 0
+    L = load_layers()
+    S = Scratch()
+    try:
+        lines, detail, flags = run_scenario(L, S, rp["c20_scenario"])
+    finally:
+        S.destroy()
+    for dd in detail:
+        print("  native", dd["native"], "->", dd["queued"])
+    viols, _stats, _n = validate(None, [(rp["c20_scenario"], flags, "k")], {"k": canonical(lines)})
+    names = [CLAUSES.get(x, x) for x in viols[0]]
+    print("verdict:", names or "accepted")
+    return 1 if names else 0
+
+
+if __name__ == "__main__":
+    if "--replay" in sys.argv:
+        sys.exit(replay_main(sys.argv[sys.argv.index("--replay") + 1]))
+    checklib.main_wrapper("C20", run)
